@@ -409,6 +409,8 @@ def breaking_variants(root):
         nth_expr(lambda n: isinstance(n, ast.Attribute) and n.attr == 'webentity_dfs_iter'), 'self.lru_trie.dfs_iter')
     add(T, 'Traph.get_page_links', 'R-ENCODED', 'raw LRU compared with stored bytes',
         nth(lambda s: isinstance(s, ast.Assign) and ast.unparse(s) == 'lru = self.__encode(lru)'), 'pass')
+    add(L, 'LRUTrie.follow_lru', 'R-RETURN-SHAPE', 'miss reported as a bare None',
+        nth(lambda s: isinstance(s, ast.Return) and isinstance(s.value, ast.Tuple) and ast.unparse(s.value.elts[0]) == 'None'), 'return None')
     return out
 
 
